@@ -76,6 +76,7 @@ theorem pend_false_of_kind_eq {ts : List Token} (h : (cur ts).kind = .operator) 
 /-- what the image theorem assumes about the parameters -/
 structure ImgHyp (cfg : Cfg) : Prop where
   num_ok : ∀ s v, cfg.num s = some (.int v) → 0 ≤ v ∧ v < 9223372036854775808
+  float_ok : ∀ s b, cfg.num s = some (.float b) → floatLit b = true
   arity : ∀ n ar, cfg.tb.builtins.lookup n = some ar → ar = 1 ∨ ar = 2
 
 theorem base_link {d : Nat} {nd : Node} {ts : List Token} (b : Bool) (hb : baseOK cfg d nd ts = true)
